@@ -29,6 +29,9 @@ type IG struct {
 	// false (1) branch: those of its copies and the redirected edges whose
 	// outcome was decided.
 	Groups map[int]*[2][]Edge
+	// GuardIf: the tests that modelDefers added for defers registered in one arm
+	// of an if (node, branch on which the deferred call runs)
+	GuardIf [][2]int
 	Copies map[int][]int
 	// Funcs: Fn, then the helpers spliced into the graph (see inl.go).
 	Funcs   []*ssa.Function
@@ -172,14 +175,21 @@ func (g *IG) modelDefers() {
 		entry := g.First[f.Blocks[0]]
 		for _, R := range runs {
 			ok := true
+			// a defer inside one arm of an if (not in a loop) runs exactly when that
+			// arm was taken: it is modelled under a second test of the same condition
+			guard := map[*ssa.Defer]Edge{}
 			for _, D := range defers {
 				dn := g.Idx[D]
 				// D on every path to R, and not on a cycle
-				if p := g.Path([]int{entry}, nil, func(n int) bool { return n == dn }, func(n int) bool { return n == R }); p != nil {
-					ok = false
-				}
 				if g.Reach(g.Succ[dn], nil, nil)[dn] {
 					ok = false
+				}
+				if p := g.Path([]int{entry}, nil, func(n int) bool { return n == dn }, func(n int) bool { return n == R }); p != nil {
+					if e, isArm := g.armOf(D.Block()); isArm && len(runs) == 1 {
+						guard[D] = e
+					} else {
+						ok = false
+					}
 				}
 			}
 			if !ok {
@@ -189,13 +199,31 @@ func (g *IG) modelDefers() {
 			cur := R
 			for i := len(defers) - 1; i >= 0; i-- {
 				D := defers[i]
+				join := -1
+				if e, guarded := guard[D]; guarded {
+					// if <same condition> { deferred call }; join
+					t := len(g.Ins)
+					g.Ins = append(g.Ins, g.Ins[e.From])
+					g.Succ = append(g.Succ, []int{-1, -1})
+					join = len(g.Ins)
+					g.Ins = append(g.Ins, g.Ins[R])
+					g.Succ = append(g.Succ, nil)
+					g.Succ[cur] = []int{t}
+					g.Succ[t][1-e.K] = join
+					g.GuardIf = append(g.GuardIf, [2]int{t, e.K})
+					cur = t
+				}
 				n := len(g.Ins)
 				fake := &ssa.Call{Call: D.Call}
 				g.Ins = append(g.Ins, fake)
 				g.Succ = append(g.Succ, nil)
 				g.Idx[fake] = n
 				g.Deferred[n] = D
-				g.Succ[cur] = []int{n}
+				if join >= 0 {
+					g.Succ[cur][guard[D].K] = n
+				} else {
+					g.Succ[cur] = []int{n}
+				}
 				cur = n
 				if cl := g.M.deferClosure[D]; cl != nil && len(cl.Blocks) > 0 {
 					// splice the literal's body once (the first RunDefers that needs it)
@@ -250,10 +278,42 @@ func (g *IG) modelDefers() {
 						}
 					}
 				}
+				if join >= 0 {
+					g.Succ[cur] = []int{join}
+					cur = join
+				}
 			}
 			g.Succ[cur] = next
 		}
 	}
+}
+
+// armOf: block b is executed exactly when one edge of an If is taken: b is the
+// target of that edge (or follows it in a straight line), the target has no
+// other predecessor, and b is not in a loop.
+func (g *IG) armOf(b *ssa.BasicBlock) (Edge, bool) {
+	if h, _ := loopOf(b); h != nil {
+		return Edge{}, false
+	}
+	for steps := 0; steps < 8; steps++ {
+		if len(b.Preds) != 1 {
+			return Edge{}, false
+		}
+		p := b.Preds[0]
+		if len(p.Succs) == 1 {
+			b = p
+			continue
+		}
+		if _, isIf := p.Instrs[len(p.Instrs)-1].(*ssa.If); !isIf || len(p.Succs) != 2 || p.Succs[0] == p.Succs[1] {
+			return Edge{}, false
+		}
+		k := 0
+		if p.Succs[1] == b {
+			k = 1
+		}
+		return Edge{g.First[p] + len(p.Instrs) - 1, k}, true
+	}
+	return Edge{}, false
 }
 
 func (g *IG) computePred() {
